@@ -947,12 +947,15 @@ TRANSFORM_EXTRA = ["morphed", "add", "add-touching", "matmul", "mul", "to_simple
 
 def op_transform(rng, specs):
     a = _op_transform(rng, specs)
-    if a["what"] == "save-load":
-        # the file round trip exists for tetrahedral / hexahedral meshes only (see run_transform): drawn on one of those
-        # when the program has any, so that the required reach point does not hang on a second lucky draw
-        ids3 = [i for i in _mesh_ids(specs, unit=False) if specs.meshes[i]["kind"] in ("tet", "hex")]
-        if ids3:
-            a["mid"] = str(ids3[int(rng.integers(len(ids3)))])
+    # operations that exist for some cell kinds only (see run_transform) are drawn on a mesh of such a kind when the program
+    # has one, so that their required reach points do not hang on a second lucky draw
+    kinds = {"save-load": ("tet", "hex"), "mul": ("line", "tri"), "to_simplex": ("quad", "hex", "wedge"),
+             "edges": ("tet", "hex", "wedge"), "f2e": ("tet", "hex", "wedge"), "p2e": ("tet", "hex", "wedge"),
+             "boundary_edges": ("tet", "hex", "wedge")}.get(a["what"])
+    if kinds and specs.meshes[a["mid"]]["kind"] not in kinds:
+        ids = [i for i in _mesh_ids(specs, unit=False) if specs.meshes[i]["kind"] in kinds]
+        if ids:
+            a["mid"] = str(ids[int(rng.integers(len(ids)))])
     return a
 
 
